@@ -2,6 +2,7 @@ package c05
 
 import (
 	"context"
+	"errors"
 	"fmt"
 	"io"
 	"math/rand"
@@ -52,6 +53,7 @@ type pipeStream struct {
 	given    int  // answers delivered
 	seq      int  // bumped on every event: lets the scheduler detect quiescence
 	closing  bool
+	ended    int // gRPC code the stream has ended with (0: it has not): Send returns io.EOF, Recv the status
 }
 
 func (p *pipeStream) logf(format string, a ...any) {
@@ -207,15 +209,29 @@ func pipeExec(input string) string {
 	// apply performs one scheduler action if it is applicable now; reports whether it was
 	apply := func(act string) bool {
 		p.mu.Lock()
-		sendParked, recvParked, wire, given := p.sendIdx >= 0, p.recvWait, p.wire, p.given
+		sendParked, recvParked, wire, given, ended := p.sendIdx >= 0, p.recvWait, p.wire, p.given, p.ended
 		p.mu.Unlock()
 		switch act[0] {
+		case 'X': // the stream ends with a status (refusal, shutdown): from now on Send → io.EOF, Recv → the status
+			if ended != 0 {
+				return false
+			}
+			c, _ := strconv.Atoi(act[1:])
+			p.mu.Lock()
+			p.ended = c
+			p.logf("X:%d", c)
+			p.mu.Unlock()
+			return true
 		case 's':
 			if !sendParked {
 				return false
 			}
+			rel := pipeRelease{}
+			if ended != 0 {
+				rel = pipeRelease{err: io.EOF, kind: "eof"}
+			}
 			select {
-			case p.sendPark <- pipeRelease{}:
+			case p.sendPark <- rel:
 				return true
 			case <-time.After(50 * time.Millisecond):
 				return false
@@ -232,6 +248,14 @@ func pipeExec(input string) string {
 				return false
 			}
 		case 'r':
+			if recvParked && ended != 0 {
+				select {
+				case p.recvPark <- pipeRelease{err: status.Error(codes.Code(ended), "scripted stream status"), kind: "st" + strconv.Itoa(ended)}:
+					return true
+				case <-time.After(50 * time.Millisecond):
+					return false
+				}
+			}
 			if !recvParked || given >= wire || given >= n {
 				return false // the target cannot answer a request it has not received
 			}
@@ -285,7 +309,11 @@ func pipeExec(input string) string {
 	}
 	p.mu.Lock()
 	if rerr != nil {
-		p.logf("ret:err:%d", int(status.Code(rerr)))
+		if errors.Is(rerr, io.EOF) {
+			p.logf("ret:err:%d:eof", int(status.Code(rerr)))
+		} else {
+			p.logf("ret:err:%d", int(status.Code(rerr)))
+		}
 	} else {
 		ids := make([]string, len(res))
 		for i, b := range res {
@@ -354,6 +382,11 @@ func genPipe(r *rand.Rand, tier string, emit func(string)) {
 	emit(pipeLine(1, []string{"F1"}, []string{"S4"}))        // the Send times out
 	emit(pipeLine(2, []string{"F1", "F1"}, []string{"s", "r", "R14"}))
 	emit(pipeLine(3, []string{"F1", "e5", "F1"}, []string{"s", "s", "s", "r", "r"}))
+	// the stream is refused / ends with a status: Send returns io.EOF, Recv the status
+	emit(pipeLine(1, []string{"F1"}, []string{"X12", "s"}))                  // refused before the first Send
+	emit(pipeLine(2, []string{"F1", "F1"}, []string{"s", "X12", "r", "s"})) // both goroutines report: the select decides
+	emit(pipeLine(2, []string{"F1", "F1"}, []string{"s", "X12", "s", "r"}))
+	emit(pipeLine(3, []string{"F1", "F1", "F1"}, []string{"s", "r", "s", "X14", "s", "r"}))
 	cnt := 150
 	if tier == "thorough" {
 		cnt = 1500
@@ -378,7 +411,7 @@ func genPipe(r *rand.Rand, tier string, emit func(string)) {
 		for i := 0; i < 2*n+r.Intn(4); i++ {
 			switch {
 			case faulty && r.Intn(8) == 0:
-				sched = append(sched, []string{"S4", "S14", "R4b", "R14", "R4b", "R12"}[r.Intn(6)])
+				sched = append(sched, []string{"S4", "S14", "R4b", "R14", "R4b", "R12", "X12", "X14", "X12"}[r.Intn(9)])
 			case r.Intn(2) == 0:
 				sched = append(sched, "s")
 			default:
